@@ -360,6 +360,10 @@ func (ex *Exec) freshLeaf(sh *Shape, hint string) string {
 	} else if sh.Kind == "lift" && ex.entryFresh > 0 {
 		ex.refArrayAxiom(name, sh)
 	}
+	if sh.Leaf == "String" && sh.Kind != "lift" {
+		// the length of a Go string fits in an int
+		ex.eng.smt.addAx(name, "(<= (str.len "+name+") 9223372036854775807)")
+	}
 	return name
 }
 
